@@ -1,37 +1,8 @@
 import Thanos.Model.ShuffleShard
+import Thanos.Lemmas.Hashring
 /-
   Helper lemmas for C21: `dedup`, the selection loop of one zone, the LRU cache.
 -/
-namespace Thanos.Hashring
-
-theorem mem_dedup {a : Nat} : ∀ {l : List Nat}, a ∈ dedup l ↔ a ∈ l
-  | [] => by simp [dedup]
-  | b :: l => by
-    simp only [dedup]
-    by_cases h : l.contains b = true
-    · simp only [h, if_true, List.mem_cons]
-      rw [mem_dedup]
-      constructor
-      · exact Or.inr
-      · rintro (rfl | h')
-        · simpa using h
-        · exact h'
-    · simp only [h, Bool.false_eq_true, if_false, List.mem_cons]
-      rw [mem_dedup]
-
-theorem nodup_dedup : ∀ (l : List Nat), (dedup l).Nodup
-  | [] => by simp [dedup]
-  | b :: l => by
-    simp only [dedup]
-    by_cases h : l.contains b = true
-    · simp only [h, if_true]; exact nodup_dedup l
-    · simp only [h, Bool.false_eq_true, if_false]
-      rw [List.nodup_cons]
-      refine ⟨?_, nodup_dedup l⟩
-      rw [mem_dedup]
-      simpa using h
-
-end Thanos.Hashring
 
 namespace Thanos.ShuffleShard
 open Thanos.Hashring
